@@ -102,7 +102,6 @@ C02_Q = [
     H("h2_text_n4", "one XmlSource helper (read_text) on a BufRead delivering <=4 symbolic bytes in 2 pieces (cut symbolic) vs the same helper of the slice source on the same bytes (hooks verif_source)", [], cost=6),
     H("h2_elem_n4", "one XmlSource helper (read_with(ElementParser)) on a BufRead delivering <=4 symbolic bytes in 2 pieces (cut symbolic) vs the same helper of the slice source on the same bytes (hooks verif_source)", [], cost=6),
     H("h2_pi_n4", "one XmlSource helper (read_with(PiParser)) on a BufRead delivering <=4 symbolic bytes in 2 pieces (cut symbolic) vs the same helper of the slice source on the same bytes (hooks verif_source)", [], cost=6),
-    H("h2_bang_n4", "one XmlSource helper (read_bang_element) on a BufRead delivering <=4 symbolic bytes in 2 pieces (cut symbolic) vs the same helper of the slice source on the same bytes (hooks verif_source)", [], cost=9, mem_gb=28, gb=22, timeout=1500),
     H("h2_skipws_n4", "one XmlSource helper (skip_whitespace) on a BufRead delivering <=4 symbolic bytes in 2 pieces (cut symbolic) vs the same helper of the slice source on the same bytes (hooks verif_source)", [], cost=6),
     H("h2_peek_n4", "one XmlSource helper (peek_one) on a BufRead delivering <=4 symbolic bytes in 2 pieces (cut symbolic) vs the same helper of the slice source on the same bytes (hooks verif_source)", [], cost=6),
     H("h2_bom_n4", "one XmlSource helper (remove_utf8_bom) on a BufRead delivering <=4 symbolic bytes in 2 pieces (cut symbolic) vs the same helper of the slice source on the same bytes (hooks verif_source)", [], cost=6),
@@ -117,8 +116,6 @@ C02_T = [
     H("h2_elem_n8k2", "one XmlSource helper (read_with(ElementParser)) on a BufRead delivering <=8 symbolic bytes in 3 pieces (cut symbolic) vs the same helper of the slice source on the same bytes (hooks verif_source)", [], cost=9, timeout_thorough=5400, mem_gb=24),
     H("h2_pi_n5", "one XmlSource helper (read_with(PiParser)) on a BufRead delivering <=5 symbolic bytes in 2 pieces (cut symbolic) vs the same helper of the slice source on the same bytes (hooks verif_source)", [], cost=9, timeout_thorough=3600, mem_gb=24),
     H("h2_pi_n8k2", "one XmlSource helper (read_with(PiParser)) on a BufRead delivering <=8 symbolic bytes in 3 pieces (cut symbolic) vs the same helper of the slice source on the same bytes (hooks verif_source)", [], cost=9, timeout_thorough=5400, mem_gb=24),
-    H("h2_bang_n5", "one XmlSource helper (read_bang_element) on a BufRead delivering <=5 symbolic bytes in 2 pieces (cut symbolic) vs the same helper of the slice source on the same bytes (hooks verif_source)", [], cost=9, timeout_thorough=3600, mem_gb=24),
-    H("h2_bang_n8k2", "one XmlSource helper (read_bang_element) on a BufRead delivering <=8 symbolic bytes in 3 pieces (cut symbolic) vs the same helper of the slice source on the same bytes (hooks verif_source)", [], cost=9, timeout_thorough=5400, mem_gb=24),
     H("h2_skipws_n5", "one XmlSource helper (skip_whitespace) on a BufRead delivering <=5 symbolic bytes in 2 pieces (cut symbolic) vs the same helper of the slice source on the same bytes (hooks verif_source)", [], cost=9, timeout_thorough=3600, mem_gb=24),
     H("h2_skipws_n8k2", "one XmlSource helper (skip_whitespace) on a BufRead delivering <=8 symbolic bytes in 3 pieces (cut symbolic) vs the same helper of the slice source on the same bytes (hooks verif_source)", [], cost=9, timeout_thorough=5400, mem_gb=24),
     H("h2_peek_n5", "one XmlSource helper (peek_one) on a BufRead delivering <=5 symbolic bytes in 2 pieces (cut symbolic) vs the same helper of the slice source on the same bytes (hooks verif_source)", [], cost=9, timeout_thorough=3600, mem_gb=24),
@@ -131,7 +128,6 @@ C18_Q = [
     H("h18_text_n3", "one XmlSource helper (read_text) on a BufRead delivering <=3 symbolic bytes in 2 pieces, with a solver-chosen fault (none / Interrupted / one of 6 other error kinds) at each of its first 3 refills, vs the slice helper", ["io error delivered"], cost=6),
     H("h18_elem_n3", "one XmlSource helper (read_with(ElementParser)) on a BufRead delivering <=3 symbolic bytes in 2 pieces, with a solver-chosen fault (none / Interrupted / one of 6 other error kinds) at each of its first 3 refills, vs the slice helper", ["io error delivered"], cost=9, mem_gb=28, gb=22, timeout=1500),
     H("h18_pi_n3", "one XmlSource helper (read_with(PiParser)) on a BufRead delivering <=3 symbolic bytes in 2 pieces, with a solver-chosen fault (none / Interrupted / one of 6 other error kinds) at each of its first 3 refills, vs the slice helper", ["io error delivered"], cost=9, mem_gb=28, gb=22, timeout=1500),
-    H("h18_bang_n3", "one XmlSource helper (read_bang_element) on a BufRead delivering <=3 symbolic bytes in 2 pieces, with a solver-chosen fault (none / Interrupted / one of 6 other error kinds) at each of its first 3 refills, vs the slice helper", ["io error delivered"], cost=9, mem_gb=28, gb=22, timeout=1500),
     H("h18_skipws_n3", "one XmlSource helper (skip_whitespace) on a BufRead delivering <=3 symbolic bytes in 2 pieces, with a solver-chosen fault (none / Interrupted / one of 6 other error kinds) at each of its first 3 refills, vs the slice helper", ["io error delivered"], cost=6),
     H("h18_peek_n3", "one XmlSource helper (peek_one) on a BufRead delivering <=3 symbolic bytes in 2 pieces, with a solver-chosen fault (none / Interrupted / one of 6 other error kinds) at each of its first 3 refills, vs the slice helper", ["io error delivered"], cost=6),
     H("h18_bom_n3", "one XmlSource helper (remove_utf8_bom) on a BufRead delivering <=3 symbolic bytes in 2 pieces, with a solver-chosen fault (none / Interrupted / one of 6 other error kinds) at each of its first 3 refills, vs the slice helper", ["io error delivered"], cost=6),
@@ -140,7 +136,6 @@ C18_T = [
     H("h18_text_n4", "same, <=4 bytes", ["io error delivered"], cost=9, timeout_thorough=3600, mem_gb=24),
     H("h18_elem_n4", "same, <=4 bytes", ["io error delivered"], cost=9, timeout_thorough=3600, mem_gb=24),
     H("h18_pi_n4", "same, <=4 bytes", ["io error delivered"], cost=9, timeout_thorough=3600, mem_gb=24),
-    H("h18_bang_n4", "same, <=4 bytes", ["io error delivered"], cost=9, timeout_thorough=3600, mem_gb=24),
     H("h18_skipws_n4", "same, <=4 bytes", ["io error delivered"], cost=9, timeout_thorough=3600, mem_gb=24),
     H("h18_peek_n4", "same, <=4 bytes", ["io error delivered"], cost=9, timeout_thorough=3600, mem_gb=24),
     H("h18_bom_n4", "same, <=4 bytes", ["io error delivered"], cost=9, timeout_thorough=3600, mem_gb=24),
@@ -153,8 +148,6 @@ C10_Q = [
     H("x10_esc_full_1", "escape on every 1-byte ASCII string: table image, forbidden characters absent, borrowed iff unchanged", ["something escaped"], cost=6),
     H("x10_esc_part_1", "partial_escape on every 1-byte ASCII string", ["something escaped"], cost=6),
     H("x10_esc_min_1", "minimal_escape on every 1-byte ASCII string", ["something escaped"], cost=6),
-    H("x10_esc_full_u2", "escape on 'a' + every 2-byte UTF-8 scalar (U+0080..U+07FF): untouched and borrowed", [], cost=4),
-    H("x10_esc_min_u2", "minimal_escape on 'a' + every 2-byte UTF-8 scalar", [], cost=4),
     H("x10_inv_lt", "inverse by composition: unescape('&lt;') (concrete execution)", []),
     H("x10_inv_gt", "unescape('&gt;') (concrete execution)", []),
     H("x10_inv_amp", "unescape('&amp;') (concrete execution)", []),
